@@ -14,7 +14,7 @@ from mc.env import RecordingCache, RecordingObjective, ScriptedCallback
 
 ID = 'C05'
 REGISTERED = True
-CASE_TIMEOUT = 60       # every run has an explicit horizon (nswp / budget); a run that does not stop within it is a violation (clause timeout)
+CASE_TIMEOUT = 600      # every run has an explicit horizon (nswp / budget); a run that does not stop within it is a violation (clause timeout); generous: the 21x21x21 rank-21 configuration alone takes 40 s on an idle machine
 LEVEL = 'model_checking'
 TECHNIQUE = ('exhaustive enumeration of configurations (shape x target rank x initial rank x rank-growth setting x sweep count x '
              'cache x validation data) of the real teneva.cross under a recording environment; per-sweep state history '
